@@ -23,7 +23,7 @@ def translate(R):
 
 
 def run_harness(R, exe, n, seed, exhaustive, tag):
-    trace = os.path.join(R.work, "trace" + tag)
+    trace = os.path.join(R.rundir, "trace" + tag)
     env = vlib.goenv()
     env.update(VERIF_SEED=str(seed), VERIF_N=str(n), VERIF_OUT=trace, VERIF_EXHAUSTIVE="1" if exhaustive else "0")
     rc, out = vlib.sh([exe, "-test.run", "TestTrace$", "-test.count=1", "-test.timeout=0"], env=env, timeout=3000)
@@ -52,7 +52,7 @@ def case_slices(trace):
 
 def analyse(R, runner, trace, tag):
     rc, out = vlib.sh("%s < %s" % (runner, trace), timeout=3000)
-    open(os.path.join(R.work, "runner%s.out" % tag), "w").write(out)
+    open(os.path.join(R.work, "runner%s.out" % tag), "w").write(out[-200000:])
     if "DONE" not in out:
         R.proof_problems.append("runner did not finish: " + out[-300:])
     # statistics over the trace
@@ -137,7 +137,7 @@ def analyse(R, runner, trace, tag):
 
 def run_proto(R, exe, runner, n, seed):
     """protocol level: real Start() loops over a simulated network; spec oracle against the physical topology"""
-    trace = os.path.join(R.work, "ptrace")
+    trace = os.path.join(R.rundir, "ptrace")
     env = vlib.goenv(); env.update(VERIF_SEED=str(seed), VERIF_N=str(n), VERIF_OUT=trace)
     rc, out = vlib.sh([exe, "-test.run", "TestProto$", "-test.count=1", "-test.timeout=0"], env=env, timeout=3000)
     if rc != 0:
@@ -189,11 +189,11 @@ def run_proto(R, exe, runner, n, seed):
 
 def run_race(R, n, seed):
     """the protocol-level harness under the Go race detector: every reported race with an access in dv/ is a failure"""
-    exe = os.path.join(R.work, "h-race.test")
+    exe = os.path.join(R.rundir, "h-race.test")
     ok, log = vlib.go_test_build("dv", exe, race=True)
     if not ok:
         R.proof_problems.append("race build of the dv harness failed: " + log[-300:]); return
-    trace = os.path.join(R.work, "ptrace-race")
+    trace = os.path.join(R.rundir, "ptrace-race")
     env = vlib.goenv(); env.update(VERIF_SEED=str(seed), VERIF_N=str(n), VERIF_OUT=trace, GORACE="halt_on_error=0")
     rc, out = vlib.sh([exe, "-test.run", "TestProto$", "-test.count=1", "-test.timeout=0"], env=env, timeout=3000)
     d = R.coverage.setdefault("distribution", {})
@@ -229,8 +229,9 @@ def run_race(R, n, seed):
 
 def replay_ops(R, exe, runner, ops, tag="rp"):
     """re-run exactly these case/node/ev/chk lines on the implementation and the model; returns the runner output"""
-    opsf = os.path.join(R.work, "ops-%s.txt" % tag)
-    trace = os.path.join(R.work, "trace-%s" % tag)
+    rd = getattr(R, "rundir", R.work)
+    opsf = os.path.join(rd, "ops-%s.txt" % tag)
+    trace = os.path.join(rd, "trace-%s" % tag)
     open(opsf, "w").write("\n".join(ops) + "\n")
     env = vlib.goenv(); env.update(VERIF_OPS=opsf, VERIF_OUT=trace)
     rc, out = vlib.sh([exe, "-test.run", "TestReplay$", "-test.count=1"], env=env, timeout=300)
@@ -265,8 +266,10 @@ def replay(R, path):
     ops = rj.get("ops_min") or rj.get("ops") or (rj.get("first_divergence") or {}).get("ops")
     if not ops:
         print("no operation list recorded in this replay file"); return 2
+    R.rundir = os.path.join(R.work, "run-%d" % os.getpid())
+    os.makedirs(R.rundir, exist_ok=True)
     ok, runner, log = vlib.extract_build("Dv")
-    exe = os.path.join(R.work, "h.test")
+    exe = os.path.join(R.rundir, "h.test")
     ok2, log2 = vlib.go_test_build("dv", exe)
     if not (ok and ok2):
         print("build failed", (log or "")[-500:], (log2 or "")[-500:]); return 2
@@ -275,6 +278,8 @@ def replay(R, path):
     print("\n".join(ops[-40:]))
     print("---- result of replaying %d lines on the current tree ----" % len(ops))
     print("\n".join(l[:600] for l in bad[:10]) if bad else "no failure reproduced")
+    import shutil
+    shutil.rmtree(R.rundir, ignore_errors=True)
     return 1 if bad else 0
 
 
@@ -290,9 +295,25 @@ def run(R):
     ]
     R.coverage["trusted_base"] = ["Coq kernel 8.16.1", "Coq extraction + OCaml 4.13.1", "runner/Dv/driver.ml", "harness/dv generator and fake ndn.Engine",
                                   "translators/dv (go/types constant evaluation)", "go1.26 toolchain, testing/synctest"]
-    import glob
+    import glob, shutil, time
     for f in glob.glob(os.path.join(R.work, "replay-*.json")):
-        os.remove(f)
+        if time.time() - os.path.getmtime(f) > 600:
+            os.remove(f)
+    # several runs of this check may be in flight at once (checkall, other builders): private scratch per run
+    R.rundir = os.path.join(R.work, "run-%d" % os.getpid())
+    shutil.rmtree(R.rundir, ignore_errors=True)
+    os.makedirs(R.rundir)
+    for d in glob.glob(os.path.join(R.work, "run-*")):
+        if d != R.rundir and time.time() - os.path.getmtime(d) > 7200:
+            shutil.rmtree(d, ignore_errors=True)
+    try:
+        return run2(R)
+    finally:
+        shutil.rmtree(R.rundir, ignore_errors=True)
+
+
+def run2(R):
+    import glob, shutil
     translate(R)
     R.prove("Dv")
     if not R.quick:
@@ -300,7 +321,8 @@ def run(R):
     ok, runner, log = vlib.extract_build("Dv")
     if not ok:
         R.proof_problems.append("extraction/OCaml build of the Dv model failed"); R.log(log[-1500:]); return R.finish()
-    exe = os.path.join(R.work, "h.test")
+    shutil.copy(runner, os.path.join(R.rundir, "runner")); runner = os.path.join(R.rundir, "runner")
+    exe = os.path.join(R.rundir, "h.test")
     ok, log = vlib.go_test_build("dv", exe)
     if not ok:
         R.proof_problems.append("Go harness for dv no longer builds against the tree: " + log[-400:]); R.log(log[-1500:]); return R.finish()
